@@ -525,6 +525,89 @@ pub fn run_case(c: &CaseSpec, stats: &mut Stats, relax_starved_skip: bool) -> Re
 	Ok(())
 }
 
+/// The library's own decoder (symphonia) on a WAV file whose data ends before the frame count its header announces (a truncated
+/// download): whatever the decoder makes of the premature end, the sound must end - Stopped within a bounded number of callbacks -
+/// and the decoder thread must end and release the file. A resume_at on a clock that is then removed likewise: the waiting
+/// sound becomes Stopped (also for the handle) and its thread ends.
+fn file_backed_case(r: &mut Rng, stats: &mut Stats) -> Result<(), String> {
+	use crate::props::c18::{encode_wav, Fmt, Smp, WavSpec};
+	struct DropBytes(Vec<u8>, Arc<DecoderObs>);
+	impl AsRef<[u8]> for DropBytes {
+		fn as_ref(&self) -> &[u8] {
+			&self.0
+		}
+	}
+	impl Drop for DropBytes {
+		fn drop(&mut self) {
+			self.1.dropped.store(true, Ordering::SeqCst);
+		}
+	}
+	let sr = 8000u32;
+	let n = r.usize_in(600, 6000);
+	let spec = WavSpec { fmt: Fmt::I16, channels: if r.chance(0.5) { 1 } else { 2 }, rate: sr, extensible: false, junk_before: None, junk_after: false, fact: false };
+	let mut bytes = encode_wav(&spec, n, &mut |i, _| Smp::Int((i % 2000) as i64 + 1));
+	let clock_variant = r.chance(0.4);
+	let cut = if clock_variant { bytes.len() } else { bytes.len() - r.usize_in(1, bytes.len() / 2) };
+	bytes.truncate(cut);
+	let obs = Arc::new(DecoderObs::default());
+	let data = match StreamingSoundData::from_cursor(std::io::Cursor::new(DropBytes(bytes, obs.clone()))) {
+		Ok(d) => d,
+		// refusing the file outright is fine: nothing was started
+		Err(_) => return Ok(()),
+	};
+	let mut rig = Rig::simple(sr, 64);
+	let mut h = match rig.mgr.play(data) {
+		Ok(h) => h,
+		Err(_) => return Ok(()),
+	};
+	let st = crate::hooks::last_decoder().ok_or("decoder hook not observed")?;
+	let why;
+	if clock_variant {
+		let clock = rig.mgr.add_clock(kira::clock::ClockSpeed::TicksPerSecond(1.0)).map_err(|_| "clock")?;
+		rig.callback(64);
+		h.pause(instant());
+		rig.callback(64);
+		rig.callback(64);
+		h.resume_at(kira::StartTime::ClockTime(kira::clock::ClockTime::from_ticks_u64(clock.id(), 1000)), instant());
+		rig.callback(64);
+		drop(clock);
+		for _ in 0..4 {
+			rig.callback(64);
+		}
+		stats.callbacks += 8;
+		if h.state() != PlaybackState::Stopped {
+			return Err(format!("file-backed streaming sound, paused, resume_at a clock time, the clock then removed: four callbacks later the handle reports {:?}, expected Stopped (the sound can never resume; its decoder thread has to end)", h.state()));
+		}
+		why = "the sound waited for a clock that was removed (Stopped)";
+	} else {
+		let mut stopped = false;
+		for _ in 0..(n / 64 + 40) {
+			rig.callback(64);
+			stats.callbacks += 1;
+			if h.state() == PlaybackState::Stopped {
+				stopped = true;
+				break;
+			}
+			std::thread::sleep(Duration::from_micros(200));
+		}
+		if !stopped {
+			// a decoder thread that hangs on the truncated data starves the sound for ever: tell hanging from slow with the
+			// reference-thread clock of await_thread_end (the sound is stopped by hand first, so the thread has every reason to end)
+			h.stop(instant());
+			for _ in 0..4 {
+				rig.callback(64);
+			}
+		}
+		why = "the file ended early and the sound is Stopped";
+	}
+	st.release();
+	match await_thread_end(&obs, &st, why)? {
+		End::Ok => stats.threads_ended += 1,
+		End::Inconclusive(_) => stats.inconclusive += 1,
+	}
+	Ok(())
+}
+
 fn gen_case(r: &mut Rng, exhaustive_k: Option<(Fault, Scene)>) -> CaseSpec {
 	// some streams are longer than the 16384-frame ring, so the decoder thread is idle (ring full) when the sound ends early
 	let long = r.chance(0.15);
@@ -647,6 +730,32 @@ pub fn run(ctx: &mut Ctx) {
 		let c = gen_case(&mut r, None);
 		run_one(ctx, "rand", i, c, &mut stats);
 	}
+	// 3. the library's own decoder on truncated files; a waiting sound whose clock is removed
+	let nf = ctx.t(200u64, 20_000u64);
+	let mut file_cases = 0u64;
+	for i in 0..nf {
+		if !ctx.owns("file", i) {
+			continue;
+		}
+		if !ctx.replaying() && !ctx.time_left(0.97) {
+			break;
+		}
+		let mut r = Rng::for_case(ctx.seed, 1003, i);
+		ctx.eval();
+		crate::monitors::set_current(ctx, "file", i, "file-backed streaming sound", false);
+		let res = super::guarded(|| file_backed_case(&mut r, &mut stats));
+		crate::monitors::clear_current();
+		crate::hooks::release_all();
+		match res {
+			Ok(Ok(())) => {
+				file_cases += 1;
+				ctx.distinct_key(0xC10_0003_0000 | (i % 16));
+			}
+			Ok(Err(e)) => ctx.violation("file", i, &e, J::Null),
+			Err(p) => ctx.violation("file", i, &format!("panic: {}", p.first().map(|p| p.sig()).unwrap_or_default()), J::Null),
+		}
+	}
+	ctx.count("file_backed_cases", file_cases);
 	ctx.count("faults_actually_reached", stats.faults_reached);
 	ctx.count("decoder_threads_observed_ending", stats.threads_ended);
 	ctx.count("callbacks", stats.callbacks);
